@@ -25,6 +25,8 @@ pub enum JBeh {
     Err,
     /// report completion, then die before the factory can handle the report
     KillAfterReport,
+    /// finish the job, report, then stop gracefully with a slow post_stop (the worker is Stopping, not yet replaced, for a while)
+    StopSelfAfter,
 }
 
 #[derive(Debug)]
@@ -42,7 +44,8 @@ pub enum FEv {
     Accept { id: u64, accepted: bool },
     Start { id: u64, key: K, wid: usize, inc: u64 },
     End { id: u64, wid: usize, inc: u64 },
-    Discard { id: u64, reason: String },
+    /// `handler`: which installed discard handler was told (1 = the initial one, 2 = the one installed by SetHandler)
+    Discard { id: u64, reason: String, handler: u8 },
     WorkerUp { wid: usize, inc: u64 },
     /// the worker actor's state was dropped (it exited, for whatever reason)
     WorkerGone { wid: usize, inc: u64, inflight: Option<u64>, reported_inflight: bool },
@@ -82,6 +85,7 @@ pub struct RawState {
     inc: u64,
     inflight: Option<u64>,
     reported: bool,
+    retiring: bool,
 }
 impl Drop for RawState {
     fn drop(&mut self) {
@@ -98,7 +102,14 @@ impl Actor for RawWorker {
     async fn pre_start(&self, myself: ActorRef<Self::Msg>, ctx: Self::Arguments) -> Result<RawState, ActorProcessingErr> {
         self.sh.workers.lock().unwrap().insert((self.wid, self.inc), myself.get_cell());
         self.sh.log(FEv::WorkerUp { wid: self.wid, inc: self.inc });
-        Ok(RawState { factory: ctx.factory, sh: self.sh.clone(), wid: ctx.wid, inc: self.inc, inflight: None, reported: false })
+        Ok(RawState { factory: ctx.factory, sh: self.sh.clone(), wid: ctx.wid, inc: self.inc, inflight: None, reported: false, retiring: false })
+    }
+
+    async fn post_stop(&self, _: ActorRef<Self::Msg>, st: &mut RawState) -> Result<(), ActorProcessingErr> {
+        if st.retiring {
+            tokio::time::sleep(Duration::from_millis(12)).await;
+        }
+        Ok(())
     }
 
     async fn handle(&self, myself: ActorRef<Self::Msg>, msg: Self::Msg, st: &mut RawState) -> Result<(), ActorProcessingErr> {
@@ -124,6 +135,12 @@ impl Actor for RawWorker {
                 self.sh.log(FEv::End { id, wid: st.wid, inc: st.inc });
                 st.reported = true;
                 st.factory.cast(FactoryMessage::Finished(st.wid, key))?;
+                if beh == JBeh::StopSelfAfter {
+                    st.inflight = None;
+                    st.retiring = true;
+                    myself.stop(Some("worker retires".into()));
+                    return Ok(());
+                }
                 if beh == JBeh::KillAfterReport {
                     myself.kill();
                     // stay inside the handler so that the kill lands here
@@ -136,10 +153,10 @@ impl Actor for RawWorker {
     }
 }
 
-pub struct DiscardLog(pub Arc<FShared>);
+pub struct DiscardLog(pub Arc<FShared>, pub u8);
 impl DiscardHandler<K, FJob> for DiscardLog {
     fn discard(&self, reason: DiscardReason, job: &mut Job<K, FJob>) {
-        self.0.log(FEv::Discard { id: job.msg.id, reason: format!("{reason:?}") });
+        self.0.log(FEv::Discard { id: job.msg.id, reason: format!("{reason:?}"), handler: self.1 });
     }
 }
 
@@ -222,6 +239,8 @@ pub enum Op {
     KillWorker(usize),
     Resize(usize),
     SetDiscard(Option<(usize, bool)>), // (limit, newest?)
+    /// UpdateSettings carrying *only* a new discard handler (id 2)
+    SetHandler,
     Barrier,
     Drain,
 }
@@ -303,6 +322,54 @@ pub fn gen_cfg(seed: u64, focus: u8) -> Cfg {
     Cfg { router, priority_queue: p.chance(1, 4), discard, rate, dead_man: if p.chance(1, 8) { Some(30) } else { None }, pool, ops, end_with_drain: p.chance(1, 2) }
 }
 
+/// Targeted generator for the runtime-settings and retiring-worker paths: a worker-queued router (or any), a small pool of busy
+/// workers, a settings change (discard kind / limit / mode, or only the handler) in the middle, bursts of dispatches behind
+/// busy workers, workers that retire by themselves with a slow post_stop while same-key jobs keep coming, and resizes.
+pub fn gen_cfg_settings(seed: u64) -> Cfg {
+    let mut p = Prng::new(seed ^ 0x5e77);
+    let router = *p.pick(&[RouterKind::KeyPersistent, RouterKind::KeyPersistent, RouterKind::RoundRobin, RouterKind::Custom(3), RouterKind::Sticky, RouterKind::Queuer]);
+    let nkeys = p.range(1, 3);
+    let pool = p.range(1, 3) as usize;
+    let discard = match p.below(3) {
+        0 => None,
+        1 => Some((p.range(4, 8) as usize, p.chance(1, 2))),
+        _ => Some((p.range(0, 2) as usize, p.chance(1, 2))),
+    };
+    let retire = p.chance(1, 2);
+    let mut ops = vec![];
+    let disp = |p: &mut Prng, retire: bool| Op::Dispatch {
+        key: p.below(nkeys),
+        dur: *p.pick(&[5u64, 20, 50]),
+        beh: if retire && p.chance(1, 6) { JBeh::StopSelfAfter } else { JBeh::Ok },
+        ttl: None,
+        with_port: p.chance(1, 2),
+    };
+    for _ in 0..p.range(2, 6) {
+        ops.push((0, disp(&mut p, retire)));
+    }
+    ops.push((0, Op::Barrier));
+    match p.below(3) {
+        0 => ops.push((1, Op::SetHandler)),
+        1 => ops.push((1, Op::SetDiscard(Some((p.range(0, 2) as usize, p.chance(1, 2)))))),
+        _ => {
+            ops.push((1, Op::SetDiscard(Some((p.range(0, 2) as usize, p.chance(1, 2))))));
+            ops.push((0, Op::SetHandler));
+        }
+    }
+    ops.push((0, Op::Barrier));
+    for _ in 0..p.range(8, 30) {
+        ops.push((*p.pick(&[0u64, 0, 0, 1, 3]), disp(&mut p, retire)));
+        if p.chance(1, 10) {
+            ops.push((0, Op::Resize(p.range(1, 4) as usize)));
+        }
+        if p.chance(1, 8) {
+            ops.push((0, Op::Barrier));
+        }
+    }
+    ops.push((0, Op::Barrier));
+    Cfg { router, priority_queue: false, discard, rate: None, dead_man: None, pool, ops, end_with_drain: p.chance(1, 2) }
+}
+
 /// Targeted generator: few keys, long jobs, workers that die right after reporting completion while same-key work is
 /// queued behind them (the window in which a stale completion report can be matched against the replacement's job).
 pub fn gen_cfg_stale_report(seed: u64) -> Cfg {
@@ -352,7 +419,7 @@ async fn drive<R: Router<K, FJob>, Q: Queue<K, FJob>>(cfg: Cfg, router: R, queue
         .num_initial_workers(cfg.pool)
         .router(router)
         .queue(queue)
-        .discard_handler(Arc::new(DiscardLog(sh.clone())) as Arc<dyn DiscardHandler<K, FJob>>)
+        .discard_handler(Arc::new(DiscardLog(sh.clone(), 1)) as Arc<dyn DiscardHandler<K, FJob>>)
         .discard_settings(discard_settings(cfg.discard))
         .lifecycle_hooks(Box::new(Hooks(sh.clone())) as Box<dyn FactoryLifecycleHooks<K, FJob>>);
     let args = match cfg.dead_man {
@@ -404,6 +471,11 @@ async fn drive<R: Router<K, FJob>, Q: Queue<K, FJob>>(cfg: Cfg, router: R, queue
             Op::SetDiscard(d) => {
                 sh.log(FEv::Op(format!("set discard {d:?}")));
                 let _ = factory.cast(FactoryMessage::UpdateSettings(UpdateSettingsRequest::builder().discard_settings(discard_settings(*d)).build()));
+            }
+            Op::SetHandler => {
+                sh.log(FEv::Op("set handler 2".into()));
+                let h: Arc<dyn DiscardHandler<K, FJob>> = Arc::new(DiscardLog(sh.clone(), 2));
+                let _ = factory.cast(FactoryMessage::UpdateSettings(UpdateSettingsRequest::builder().discard_handler(Some(h)).build()));
             }
             Op::Barrier => {
                 // a query queued right behind everything sent so far
